@@ -35,6 +35,39 @@ func class(p uint32) string {
 }
 
 func main() {
+	area := "mappers"
+	if len(os.Args) > 1 {
+		area = os.Args[1]
+	}
+	if area != "mappers" {
+		bad := 0
+		fail := func(f string, a ...interface{}) {
+			if bad < 5 {
+				fmt.Printf("probe-violation "+f+"\n", a...)
+			}
+			bad++
+		}
+		areas := map[string]func(func(string, ...interface{})) int{"colour": areaColour, "header": areaHeader, "rom": areaROM, "emitter": areaEmitter, "bus": areaBus, "cpu": areaCPU}
+		fn, ok := areas[area]
+		if !ok {
+			fmt.Println("unknown area", area)
+			os.Exit(2)
+		}
+		n := 0
+		func() {
+			defer func() {
+				if e := recover(); e != nil {
+					fail("%s: failed with %v", area, e)
+				}
+			}()
+			n = fn(fail)
+		}()
+		fmt.Printf("probe area=%s evaluated=%d violations=%d\n", area, n, bad)
+		if bad > 0 {
+			os.Exit(1)
+		}
+		return
+	}
 	ms := []mapper{{"lorom", lorom.BusAddressToPak, lorom.PakAddressToBus}, {"hirom", hirom.BusAddressToPak, hirom.PakAddressToBus},
 		{"exhirom", exhirom.BusAddressToPak, exhirom.PakAddressToBus}, {"sa1rom", sa1rom.BusAddressToPak, sa1rom.PakAddressToBus}}
 	bad, n := 0, 0
@@ -44,12 +77,21 @@ func main() {
 		}
 		bad++
 	}
-	offs := []uint32{0, 0x1FFF, 0x2000, 0x5FFF, 0x6000, 0x7FFF, 0x8000, 0xFFFF, 0x1234, 0x9ABC}
+	offs := []uint32{0, 0x1FFF, 0x2000, 0x5FFF, 0x6000, 0x7FFF, 0x8000, 0xFFFF, 0x1234, 0x9ABC, 0xE000, 0xDFFF}
 	for _, m := range ms {
 		for bank := uint32(0); bank < 256; bank++ {
 			for _, off := range offs {
 				a := bank<<16 | off
 				n++
+				if pan := func() (p interface{}) {
+					defer func() { p = recover() }()
+					_, _ = m.b2p(a)
+					_, _ = m.p2b(a)
+					return nil
+				}(); pan != nil {
+					fail("%s: a call with $%06x failed: %v", m.name, a, pan)
+					continue
+				}
 				if p, err := m.b2p(a); err == nil {
 					if class(p) == "none" {
 						fail("%s: B2P($%06x)=$%06x outside every class window", m.name, a, p)
